@@ -234,7 +234,36 @@ def c10(args):
             rel = ((grads[0] - grads[1]).abs().max() / grads[0].abs().max().clamp_min(1e-12)).item()
             if rel > 1e-9:
                 bad.append((noise, wts, rel))
-    return {'reproduced': bool(bad), 'detail': bad[:6]}
+    # user functions that return their argument itself (storage shared between the state and the vector fields)
+    for which in ('g', 'f'):
+        class Ident(torch.nn.Module):
+            noise_type, sde_type = 'diagonal', 'stratonovich'
+
+            def __init__(self):
+                super().__init__()
+                self.c = torch.nn.Parameter(torch.tensor(0.3, dtype=torch.float64))
+
+            def f(self, t, y):
+                return y if which == 'f' else -self.c * y
+
+            def g(self, t, y):
+                return y if which == 'g' else self.c * torch.cos(y)
+        ts = torch.tensor([0., 0.25, 0.5, 1.0], dtype=torch.float64)
+        grads = []
+        for adjoint in (False, True):
+            sde = Ident()
+            y0 = torch.full((2, 2), 0.5, dtype=torch.float64, requires_grad=True)
+            bm = torchsde.BrownianInterval(0., 1., size=(2, 2), entropy=7, dtype=torch.float64)
+            fn = torchsde.sdeint_adjoint if adjoint else torchsde.sdeint
+            kw = dict(adjoint_method='adjoint_reversible_heun') if adjoint else {}
+            ys = fn(sde, y0, ts, bm=bm, method='reversible_heun', dt=2.0 ** -4, **kw)
+            loss = sum((i + 1.0) * (ys[i] ** 2).sum() for i in range(len(ts)))
+            g = torch.autograd.grad(loss, [y0] + list(sde.parameters()), allow_unused=True)
+            grads.append(torch.cat([x.reshape(-1) for x in g if x is not None]))
+        rel = ((grads[0] - grads[1]).abs().max() / grads[0].abs().max().clamp_min(1e-12)).item()
+        if rel > 1e-9:
+            bad.append((f'{which}(t, y) returns y itself', rel))
+    return {'reproduced': bool(bad), 'detail': [str(b) for b in bad[:6]]}
 
 
 def _bm_configs():
@@ -288,6 +317,17 @@ def c03(args):
         z = bm(grid[3], grid[3])
         if isinstance(z, torch.Tensor) and z.abs().max().item() != 0:
             bad.append(('zero-length', t0, t1, levy, kw))
+    # tol > 0: queries exactly one grid step long are not empty
+    for tol, pts in ((1e-2, [0.1, 0.11, 0.12, 0.13]), (1e-3, [0.203, 0.204, 0.205]), (1e-6, [0.5, 0.500001, 0.500002])):
+        for kw in (dict(tol=tol), dict(tol=tol, halfway_tree=True)):
+            bm = torchsde.BrownianInterval(0., 1., size=(2,), entropy=3, dtype=torch.float64, levy_area_approximation='space-time', **kw)
+            for i in range(len(pts) - 2):
+                s_, u_, t_ = pts[i], pts[i + 1], pts[i + 2]
+                (Wst, Ust), (Wsu, Usu), (Wut, Uut) = bm(s_, t_, return_U=True), bm(s_, u_, return_U=True), bm(u_, t_, return_U=True)
+                if (Wst - Wsu - Wut).abs().max().item() > 1e-9:
+                    bad.append(('additivity over one-grid-step pieces', kw, s_, u_, t_, (Wst - Wsu - Wut).abs().max().item()))
+                if (Ust - Usu - Uut - (t_ - u_) * Wsu).abs().max().item() > 1e-9:
+                    bad.append(('chen-U over one-grid-step pieces', kw, s_, u_, t_))
     return {'reproduced': bool(bad), 'detail': [str(b) for b in bad[:6]]}
 
 
@@ -434,7 +474,8 @@ def c20(args):
 def c08(args):
     """Directional finite differences vs backprop, y0 requiring grad or not."""
     bad = []
-    for (method, st, noise) in CONFIGS + [('milstein', 'stratonovich', 'scalar'), ('srk', 'ito', 'diagonal')]:
+    for (method, st, noise) in CONFIGS + [('milstein', 'stratonovich', 'scalar'), ('srk', 'ito', 'diagonal'), ('log_ode', 'stratonovich', 'general'),
+                                         ('euler_heun', 'stratonovich', 'general'), ('heun', 'stratonovich', 'additive')]:
         for y0_rg in (False, True):
             torch.manual_seed(0)
             d = 2
